@@ -248,12 +248,24 @@ func (b *blame) addBlames(curItems []*queueItem) (bool, error) {
 		return false, err
 	}
 
-	anyPushed := false
-	for parnetNo, prev := range parents {
-		currentHash, err := blobHash(curItem.path, curItem.Commit)
+	// like git, a parent whose blob is identical takes the whole blame, whatever its position
+	currentHash, err := blobHash(curItem.path, curItem.Commit)
+	if err != nil {
+		return false, err
+	}
+	for _, prev := range parents {
+		prevHash, err := blobHash(prev.Path, prev.Commit)
 		if err != nil {
 			return false, err
 		}
+		if currentHash == prevHash {
+			parents = []parentCommit{prev}
+			break
+		}
+	}
+
+	anyPushed := false
+	for parnetNo, prev := range parents {
 		prevHash, err := blobHash(prev.Path, prev.Commit)
 		if err != nil {
 			return false, err
